@@ -10,6 +10,7 @@
 //!      is Pending the executor releases one parked lookup chosen by the seeded generator
 //!   C  multi-threaded tokio runtime; a delayed lookup sleeps 30*k microseconds
 //! Every run uses a fresh Symbolizer; every HashMap built during a run gets a fresh RandomState.
+//! `E <certs> <modules>`: model correspondence for the evil-json certificate fold (cert_subject per module).
 //! A line `R <hex limits stream>` is the model correspondence case (names of the proc_limits array).
 //! answer:  n=<distinct renderings> h=<fnv of the first> runs=<total> thr=<threads> fr=<frames>
 //!          diff=<up to 32 differing JSON paths / text line numbers, or ->
@@ -266,9 +267,37 @@ fn run_limits_names(h: &str) -> String {
     format!("R {}", names.join(","))
 }
 
+/// E c1:m1+m2,c2:m1 m1,m2,m3 : evil-json ModuleSignatureInfo {c1:[m1.dll,m2.dll],c2:[m1.dll]} and a dump
+/// with modules C:\x\m1.dll ...; answer: cert_subject of each module as print_json reports it
+fn run_certs(spec_s: &str, mods: &str) -> String {
+    let mut obj = serde_json::Map::new();
+    for e in spec_s.split(',') {
+        let (c, ms) = e.split_once(':').expect("cert:mods");
+        obj.insert(c.to_string(), serde_json::Value::Array(ms.split('+').map(|m| serde_json::Value::String(format!("{}.dll", m))).collect()));
+    }
+    let inner = serde_json::to_string(&serde_json::Value::Object(obj)).unwrap();
+    let evil = serde_json::json!({ "ModuleSignatureInfo": inner }).to_string();
+    let mut f = tempfile::NamedTempFile::new().expect("tmp");
+    std::io::Write::write_all(&mut f, evil.as_bytes()).unwrap();
+    let mut spec = Spec { cpu: "x86".into(), os: "win".into(), ..Default::default() };
+    spec.threads.push(ThreadSpec { id: 1, stack_base: 0x10000, stack: vec![0; 64], regs: Some(vec![("eip".into(), 0x400010), ("esp".into(), 0x10000)]) });
+    for (i, m) in mods.split(',').enumerate() {
+        spec.modules.push(ModSpec { base: 0x400000 + 0x10000 * i as u64, size: 0x1000, name: format!("C:\\x\\{}.dll", m), sym: None, debug: None });
+    }
+    let dump = Minidump::read(build_dump(&spec)).expect("read");
+    let rend = exec_a(process_and_render(&dump, string_symbol_supplier(HashMap::new()), 2, Some(f.path())));
+    let v: serde_json::Value = serde_json::from_slice(&rend.json).expect("json");
+    let out: Vec<String> = v["modules"].as_array().map(|a| a.iter().map(|m| m["cert_subject"].as_str().unwrap_or("-").to_string()).collect()).unwrap_or_default();
+    format!("E {}", out.join(","))
+}
+
 fn run(line: &str) -> String {
     if let Some(h) = line.strip_prefix("R ") {
         return run_limits_names(h.trim());
+    }
+    if let Some(rest) = line.strip_prefix("E ") {
+        let mut it = rest.split_ascii_whitespace();
+        return run_certs(it.next().expect("certs"), it.next().expect("mods"));
     }
     let spec = parse_spec(line.split_ascii_whitespace());
     let dl: Vec<u32> = spec.extra.get("dl").map(|s| s.split(',').filter(|x| !x.is_empty()).map(|x| num(x) as u32).collect()).unwrap_or_default();
